@@ -21,8 +21,9 @@
    D. non-vacuity on a task set with two ExtrapAB tasks (one with a plateau-ended prefix).
 
    No side condition on plateaus is needed: ExtrapolatingCurve::number_arrivals always looks the
-   count up inside the extrapolated vector (delta < last entry), so the wrap-around defect of
-   Curve::number_arrivals (C11) is never exercised, and [steps_exact_class (ExtrapAB d)] holds. *)
+   count up inside the extrapolated vector (delta < last entry), so the wrap-around of
+   Curve::number_arrivals (former finding C11-plateau-curve, repaired meanwhile) is never exercised, and
+   [steps_exact_class (ExtrapAB d)] holds. *)
 From Coq Require Import Arith NArith List Lia Bool Permutation.
 From RTA.Model Require Import Base Arrival Wcet Demand Analyses Eval WellFormed.
 From RTA.Spec Require Import Sched Events TaskModel Policies Exhaustive.
